@@ -238,6 +238,10 @@ def aStep (s : St) : List String → St × String
   | ["addb", o, v] =>
       let a := arr s (ob o)
       aOut (setArr s (ob o) { a with items := a.items ++ [nat! v] }) "ok"
+  | ["addbn", o, v, cap] =>
+      match (arr s (ob o)).addBackNogrow (nat! cap) (nat! v) with
+      | some a => aOut (setArr s (ob o) a) "ok"
+      | none => aOut s bad
   | ["ins", o, i, n, v] =>
       match (arr s (ob o)).insert (nat! i) (nat! n) (nat! v) with
       | some a => aOut (setArr s (ob o) a) "ok"
